@@ -87,6 +87,31 @@ CHECKS = {
              "Watchers.map acquisition); quick tier samples up to 60 schedules per scenario; dev profile",
         technique="TLA+ linearizability trace spec + TLC trace validation; TLC-generated schedules forced by a cooperative scheduler",
         design="DESIGN.md §5 C02"),
+    "C03": dict(
+        level="model_checking",
+        text="Writers x subscribers scenarios (watching then unwatch / unwatch-all / disconnect, subscribing, "
+             "subscribing-then-writing while another client unsubscribes, two writers with a passive "
+             "subscriber, replicated write): TLC enumerates the interleavings of NunKVConc, the scheduler "
+             "forces them on the real code, and TLC validates each run against Trace_KVLin group WATCH: "
+             "every committed change inside a subscription interval is notified exactly once, nothing for "
+             "refused writes / unwatched keys / after unsubscribing, another client's watch / unwatch / "
+             "disconnect never drops a subscription, highest-versioned notification is current.",
+        note="interleavings at yield-hook granularity; notifications attributed to writes by distinguishable "
+             "values; a client never watches a key twice; channel capacity (100 lines) not exceeded",
+        technique="TLA+ trace spec with call/linearisation/return indices + TLC trace validation; TLC-generated schedules",
+        design="DESIGN.md §5 C03"),
+    "C19": dict(
+        level="model_checking",
+        text="Newer-strategy database: seeded sequences of plain / versioned writes (below, at, above the "
+             "current version) through process_request and through set_key_value (reply names the stored "
+             "value) validated against NunKV group NEWER+WATCH; every pair of writes from two clients "
+             "under TLC-enumerated lock-level interleavings validated against Trace_KVLin (never refused, "
+             "takes effect or is superseded only by a concurrent/later change, version grows, notified "
+             "exactly when the stored value changes).",
+        note="replica part is covered by the cluster runs (C04) on newer databases; operation ids from a "
+             "strictly increasing virtual clock",
+        technique="TLA+ reference + linearizability trace spec, TLC trace validation; TLC-generated schedules",
+        design="DESIGN.md §5 C19"),
 }
 
 NOT_YET = "check not built yet (build in progress; see DESIGN.md §8 build order)"
